@@ -61,7 +61,8 @@ def gen_concurrent_case(rng: random.Random, tier: str, backends=('dict',),
                         min_sessions: int = 2, max_sessions: int = 4,
                         weights=None, len_range=(10, 40),
                         hold_p: float = 0.08,
-                        examine_p: float = 0.2) -> dict:
+                        examine_p: float = 0.2,
+                        fault_p: float = 0.08) -> dict:
     """2-4 sessions on one mailbox, several acting per step."""
     n = rng.randint(min_sessions, max_sessions)
     tokens = Tokens()
@@ -89,10 +90,13 @@ def gen_concurrent_case(rng: random.Random, tier: str, backends=('dict',),
     maxn = max(1, n_init)
     idling: set[int] = set()
     holding: set[int] = set()
+    dead: set[int] = set()
     for _ in range(rng.randint(*len_range)):
         acts = []
         k = rng.choice([1, 2, 2, 3, n]) if n > 1 else 1
         for sess in rng.sample(range(n), min(k, n)):
+            if sess in dead:
+                continue
             if sess in idling:
                 if rng.random() < 0.5:
                     acts.append({'sess': sess, 'kind': 'done'})
@@ -135,8 +139,32 @@ def gen_concurrent_case(rng: random.Random, tier: str, backends=('dict',),
                          'hold': rng.choice([0.005, 0.02, 0.05, 0.12, 0.3,
                                              0.7]),
                          'at': rng.choice([0, rng.randint(1, 60)])})
+        step = {'actions': acts, 'sched_seed': maybe_seed(rng)}
+        victims = [a['sess'] for a in acts
+                   if a.get('sess') not in (None, 0)
+                   and a['kind'] not in ('hold', 'unhold', 'done')]
+        if victims and rng.random() < fault_p:
+            # a session dies in the middle of its command (the task is
+            # cancelled or the peer resets); the others must not notice
+            # anything but its effects
+            v = rng.choice(victims)
+            step['faults'] = [{'kind': rng.choice(['cancel', 'reset']),
+                               'sess': v, 'at': rng.randint(0, 40)}]
+            idling.discard(v)
+            holding.discard(v)
+            dead.add(v)
         if acts:
-            steps.append({'actions': acts, 'sched_seed': maybe_seed(rng)})
+            steps.append(step)
+        if dead and rng.random() < 0.3:
+            v = dead.pop() if len(dead) == 1 else sorted(dead)[0]
+            dead.discard(v)
+            for act in ({'kind': 'connect'},
+                        {'kind': 'login', 'user': USER['name'],
+                         'password': USER['password']},
+                        {'kind': 'examine' if v in examine else 'select',
+                         'mailbox': 'INBOX'}):
+                steps.append({'actions': [dict(act, sess=v)],
+                              'sched_seed': None})
     # wind down: release holds, end idles, NOOP everywhere
     steps.append({'actions': [{'sess': i, 'kind': 'unhold'}
                               for i in sorted(holding)] +
@@ -144,6 +172,11 @@ def gen_concurrent_case(rng: random.Random, tier: str, backends=('dict',),
                   'sched_seed': None})
     steps.append({'actions': [{'sess': i, 'kind': 'noop'} for i in range(n)],
                   'sched_seed': None})
+    if any(st.get('faults') for st in steps) and rng.random() < 0.6:
+        # a death is most interesting while the victim waits for a lock
+        for kind in ('lock_stall', 'lock_yield'):
+            if kind not in cfg['buggify']:
+                cfg['buggify'].append(kind)
     return {'config': cfg, 'steps': steps}
 
 
